@@ -430,7 +430,7 @@ func (e *Eng) verifyFunc(fc *FuncContract, refute bool, unrollK int) (res *FuncR
 		vc.Assume(Le(Int(firstDynObj), a0))
 		dynBase = a0.Name
 	}
-	tr.entry = State{Reach: tTrue, Mem: m0, Alloc: a0, Locks: vc.Fresh("L0", SMem)}
+	tr.entry = State{Reach: tTrue, Mem: m0, Alloc: a0, Locks: vc.Fresh("L0", SMem), Ghost: vc.Fresh("G0", SMem)}
 	for _, p := range fn.Params {
 		tr.params = append(tr.params, tr.freshVal("p_"+p.Name(), p.Type(), a0))
 	}
@@ -652,6 +652,7 @@ func (tr *FnTr) exceptionalExit(fc *FuncContract, fn *ssa.Function) {
 			st.Mem = Ite(live[i].St.Reach, live[i].St.Mem, st.Mem)
 			st.Alloc = Ite(live[i].St.Reach, live[i].St.Alloc, st.Alloc)
 			st.Locks = Ite(live[i].St.Reach, live[i].St.Locks, st.Locks)
+			st.Ghost = Ite(live[i].St.Reach, live[i].St.Ghost, st.Ghost)
 		}
 		st.Reach = vc.Def("reach_exc", Or(rs...))
 		st.Mem = vc.Def("mem_exc", st.Mem)
@@ -668,7 +669,7 @@ func (tr *FnTr) exceptionalExit(fc *FuncContract, fn *ssa.Function) {
 		tr.checkPost(fc, fn, res, "postexc", true)
 		return
 	}
-	st := State{Reach: tTrue, Locks: vc.Fresh("locks_exc", SMem)}
+	st := State{Reach: tTrue, Locks: vc.Fresh("locks_exc", SMem), Ghost: vc.Fresh("ghost_exc", SMem)}
 	st.Alloc = vc.Fresh("alloc_exc", SInt)
 	vc.Assume(Le(tr.entry.Alloc, st.Alloc))
 	if tr.storeChecks {
@@ -729,7 +730,7 @@ func (e *Eng) VerifyLemma(lm *Lemma) *FuncResult {
 		}
 	}
 	m0 := vc.Fresh("M0", SMem)
-	st := State{Reach: tTrue, Mem: m0, Alloc: Int(firstDynObj), Locks: vc.Fresh("L0", SMem)}
+	st := State{Reach: tTrue, Mem: m0, Alloc: Int(firstDynObj), Locks: vc.Fresh("L0", SMem), Ghost: vc.Fresh("G0", SMem)}
 	tr.entry = st
 	ctx := &SpecCtx{tr: tr, st: st, old: st}
 	if len(lm.Split) == 0 {
